@@ -118,7 +118,7 @@ fn select(points: &[Point], ops: &[Op], rng: &mut Rng, all: bool, budget: usize)
 
 /// run the history in a child process that calls _exit(137) inside the failpoint at (op, k); returns the
 /// key/value dump of what it left on disk
-fn real_kill_image(sc: &Scenario, pt: &Point) -> Result<std::collections::BTreeMap<String, String>, String> {
+fn real_kill_image(sc: &Scenario, pt: &Point) -> Result<(std::path::PathBuf, std::collections::BTreeMap<String, String>), String> {
     let dir = crate::inst::fresh_dir("c04-kill");
     let case_path = dir.with_extension("case.json");
     std::fs::write(&case_path, serde_json::to_string(&case_of(sc)).unwrap_or_default()).map_err(|e| e.to_string())?;
@@ -135,8 +135,7 @@ fn real_kill_image(sc: &Scenario, pt: &Point) -> Result<std::collections::BTreeM
         return Err(format!("child did not die at the crash point: {:?}", st));
     }
     let dump = crate::props::c10::dump_dir(&dir);
-    let _ = std::fs::remove_dir_all(&dir);
-    Ok(dump)
+    Ok((dir, dump))
 }
 
 /// `sim c04-child <case> <op> <k> <dir>`: execute the history on `dir` and die for real at write k of op
@@ -198,24 +197,42 @@ fn check_point(sc: &Scenario, pt: &Point, stats: &mut crate::world::Stats, valid
     // the process is dead: only the directory survives
     let uni = b.uni.clone();
     b.inst.close();
+    let mut model_differs: Option<Value> = None;
     if validate_kill {
         // crash-model validation: a child process that really dies (_exit inside the failpoint) at the same
-        // write must leave the same key/value content in every table
+        // write should leave the same key/value content in every table. Where it does not, the simulated crash is
+        // only a model: what the dead process really left behind is what has to be recoverable, so the checks below
+        // run on that directory instead
         let image = crate::props::c10::dump_dir(&b.inst.dir);
         match real_kill_image(sc, pt) {
-            Ok(killed) => {
+            Ok((kdir, killed)) => {
                 stats.bump("real_kill_images_compared");
                 if killed != image {
                     let mut keys: Vec<&String> = image.keys().chain(killed.keys()).collect();
                     keys.sort();
                     keys.dedup();
                     let diffs: Vec<Value> = keys.iter().filter(|k| image.get(**k) != killed.get(**k)).take(4).map(|k| json!({"row": k, "simulated": image.get(*k).map(|s| s.len()), "real_kill": killed.get(*k).map(|s| s.len())})).collect();
-                    return Some(Violation::new("harness/crash-model-differs-from-real-kill", json!({"crash": {"op": pt.op, "write_index": pt.k, "site": pt.site}, "rows": diffs})));
+                    model_differs = Some(json!({"crash": {"op": pt.op, "write_index": pt.k, "site": pt.site}, "rows": diffs}));
+                    let _ = std::fs::remove_dir_all(&b.inst.dir);
+                    if let Err(e) = std::fs::rename(&kdir, &b.inst.dir) {
+                        return Some(Violation::new("harness/real-kill-child", json!({"error": e.to_string()})));
+                    }
+                    stats.bump("real_kill_images_checked_instead_of_the_model");
+                } else {
+                    let _ = std::fs::remove_dir_all(&kdir);
                 }
             }
             Err(e) => return Some(Violation::new("harness/real-kill-child", json!({"error": e}))),
         }
     }
+    let on_real_image = model_differs.is_some();
+    let detail = |extra: Value| {
+        let mut d = detail(extra);
+        if on_real_image {
+            d["image"] = json!("left behind by a process that was really killed at this write (it differs from the simulated crash)");
+        }
+        d
+    };
     if let Err(e) = b.inst.reopen() {
         return Some(Violation::new(format!("cannot-reopen-after-crash/{}", pt.site), detail(json!({"error": e}))));
     }
@@ -354,6 +371,10 @@ fn check_point(sc: &Scenario, pt: &Point, stats: &mut crate::world::Stats, valid
             }
         }
     }
+    if let Some(d) = model_differs {
+        // recoverable, but the crash model needs attention
+        return Some(Violation::new("harness/crash-model-differs-from-real-kill", d));
+    }
     None
 }
 
@@ -398,7 +419,17 @@ impl Prop for C04 {
     fn assumptions(&self) -> Vec<String> {
         vec![
             "crash model = process death: writes completed before the crash point survive (RocksDB WAL write per put), later ones do not; machine crash with lost page cache is not modelled".into(),
-            "the crash is simulated by failing the write and all later writes and dropping the instance; a sample is cross-checked against a real _exit in a child process in the thorough tier (see DESIGN)".into(),
+            "the crash is simulated by failing the write and all later writes and dropping the instance; every 12th (quick) / 9th (thorough) crash point is cross-checked against a real _exit in a child process, and where the two images differ the recovery checks run on what the killed process really left behind".into(),
+            {
+                // persistent writes that carry no failpoint (tools/check_failpoints.py) are not crash points here
+                let p = format!("{}/shadow/unhooked_writes.json", crate::framework::verif_root());
+                let n: Vec<String> = std::fs::read_to_string(p).ok().and_then(|s| serde_json::from_str(&s).ok()).unwrap_or_default();
+                if n.is_empty() {
+                    "every persistent write of the storage components carries a failpoint (checked at build time)".to_string()
+                } else {
+                    format!("WARNING: {} persistent write(s) carry no failpoint and are not enumerated as crash points: {}", n.len(), n.join("; "))
+                }
+            },
         ]
     }
     fn shrink(&self, _case: &Value) -> Vec<Value> {
